@@ -67,10 +67,11 @@ def bit (s : String) : Option Bool := if s == "1" then some true else if s == "0
 def step (st : DState) (ws : List String) : DState × String :=
   let bad := (st, "bad-op")
   match ws with
-  | ["cfg", a, b, c] =>
-    match bit a, bit b, bit c with
-    | some a, some b, some c => ({ st with q := ⟨a, b, c⟩ }, "ok")
-    | _, _, _ => bad
+  | "cfg" :: bits =>
+    -- rangeEndFix seqCarry parseChecked persistLastId fieldsList readCountZeroAll idIncomplete
+    match bits.mapM bit with
+    | some [a, b, c, d, e, f, g] => ({ st with q := ⟨a, b, c, d, e, f, g⟩ }, "ok")
+    | _ => bad
   | ["new"] => ({ st with code := Code.Stream.new, spec := Spec.Stream.new }, two "ok" "ok")
   | ["addid", ms, seq, f] =>
     match ms.toNat?, seq.toNat?, parseFields f with
@@ -158,6 +159,9 @@ def step (st : DState) (ws : List String) : DState × String :=
       (st, two (sh (Code.parseId st.q b)) (sh (Spec.parseId b)))
     | none => bad
   | ["cnew"] => ({ st with ks := [], ksSpec := [] }, two "ok" "ok")
+  | ["crestart"] =>
+    -- SAVE + restart of the key space (the oracle's key space restarts as the repaired tree does: unchanged)
+    ({ st with ks := Cmd.restartAll st.q st.ks, ksSpec := Cmd.restartAll fixed st.ksSpec }, two "ok" "ok")
   | "cmd" :: args =>
     match args.mapM ofHex with
     | some args =>
